@@ -142,6 +142,13 @@ def judge_one(ctx, p, exp, obs, case, reload=True):
                     [[list(map(str, a)), b] for a, b in extra],
                     detail="text=%r" % case["text"])
         return
+    odd = outcome.odd_mappings(config)
+    res.count("mappings_probed_with_an_absent_key")
+    if odd:
+        res.violate("mapping-does-not-behave-like-one", case, [], odd[:4],
+                    detail="text=%r: %s" % (case["text"], odd[:2]),
+                    vsig="oddmap|%s" % odd[0].split(":")[-1][:30])
+        return
     # the application changes every list / mapping of the result in place,
     # then reads the same text again: the second tree must be the schema's
     # again (converted values or defaults remembered by reference show here)
